@@ -7,10 +7,12 @@ against one application vs a fresh application per request + deep snapshot, (b) 
 schedules (c13_sched.py)."""
 import re
 import threading
+import zlib
 from collections import Counter
 
 import common  # noqa: F401
 from props import c13_fix as F
+from props import c13_modstate as M
 from props import c13_sched as S
 from props import c13_trace as T
 
@@ -28,7 +30,7 @@ def node_sexp(v):
         return "(c s %s (%s))" % (v[1], " ".join(node_sexp(c) for c in v[3]))
     if k == "grid":
         return "(c g %s (%s))" % (v[1], " ".join(["(b %s 1)" % v[1]] + ["(b %s 1)" % d for d, _ in v[4]]))
-    if k == "seq":
+    if k in ("seq", "lseq"):
         return "(c q %s (%s))" % (v[1], " ".join("(b %s 1)" % c[0] for c in v[3]))
     raise ValueError(k)
 
@@ -38,7 +40,7 @@ def spec_sexp(spec):
 
 
 def seq_ids(spec):
-    return [".".join(p) for p, v in F.leaves(spec) if v[0] == "seq"]
+    return [".".join(p) for p, v in F.leaves(spec) if F.is_seq(v)]
 
 
 def model_request(spec, url):
@@ -92,6 +94,16 @@ def summary(events, label_owned=True):
 
 # ---- one traced request: ownership oracle + correspondence case -----------------------------------
 _RECENT = []   # the traced requests served earlier in this process (module-level state in pydap would link them)
+_BREAKS = []   # {"label", "spec", "url"}: a module-level container of pydap changed while this request was served
+
+
+def served(ctx, spec, url, before):
+    """module-level half of the ownership oracle: called after `url` was served, with the snapshot taken before"""
+    after = M.snapshot_all()
+    for label in M.changed(before, after):
+        _BREAKS.append({"label": label, "spec": spec, "url": url,
+                        "value": zlib.crc32(repr(after.get(label)).encode())})
+    return after
 
 
 def traced_case(ctx, spec, url, kind, cases, tid=7):
@@ -100,7 +112,9 @@ def traced_case(ctx, spec, url, kind, cases, tid=7):
     app, handler, ds = F.make_app(spec)
     T.share(ds)
     snap = F.snapshot(ds)
+    mod = M.snapshot_all()
     out, tr = T.traced_call(app, url, "t%d" % tid, F.call)
+    served(ctx, spec, url, mod)
     case = {"oracle": "ownership", "spec": spec, "url": url}
     if tr.foreign:
         leaked = any(f[3] != T.SHARED for f in tr.foreign)   # object of an *earlier request*: replay needs those too
@@ -117,7 +131,10 @@ def traced_case(ctx, spec, url, kind, cases, tid=7):
     stages = sorted(set(e[0] for e in tr.events))
     ctx.count(("own", repr(spec), url), ok, tag="traced:%s:%s" % (kind, "ok" if ok else "error"),
               sample={"url": url, "stages": stages, "writes": len(tr.events)})
-    if line is not None:
+    # lazy sequences: the IterData data object clones its template and keeps filter/map/slice lists of its own
+    # (all allocated by the request, checked above); those internals are outside the model, so such datasets take
+    # part in the ownership, module-state, history and schedule oracles but not in the write-log correspondence
+    if line is not None and not any(v[0] == "lseq" for _, v in F.leaves(spec)):
         cases.append(("hs-log %d %s %s" % (tid, spec_sexp(spec), line), summary(tr.events),
                       {"url": url, "spec": spec}))
         cases.append(("hs-audit %d %s %s" % (tid, spec_sexp(spec), line), None, {"url": url, "audit": True}))
@@ -144,8 +161,10 @@ def run_correspondence(ctx, cases):
 def history_case(ctx, spec, urls, where):
     app, handler, ds = F.make_app(spec)
     snap = F.snapshot(ds)
+    mod = M.snapshot_all()
     for i, url in enumerate(urls):
         got = F.call(app, url)
+        mod = served(ctx, spec, url, mod)
         fresh_app, _, _ = F.make_app(spec)
         exp = F.call(fresh_app, url)
         if got != exp:
@@ -200,27 +219,48 @@ def _quiet(fn, *a):
 
 # ---- the run ----------------------------------------------------------------------------------------
 def explore(ctx, tier, search=False):
+    import time
     T.install()
-    rng = ctx.rng("c13")
+    t_start = time.time()
+    phases = ctx.extra.setdefault("phase_s", {})
+
+    def mark(name):
+        nonlocal t_start
+        phases[name] = round(phases.get(name, 0) + time.time() - t_start, 1)
+        t_start = time.time()
+    rng = ctx.rng("c13-search" if search else "c13")
     cases = []
     # fixed dataset, fixed request list: traced one by one, then as histories in several orders
     for url in F.FIXED_REQUESTS:
         traced_case(ctx, F.FIXED_SPEC, url, "fixed", cases)
-    n_specs = 12 if tier == "quick" else 120
-    if search:
-        n_specs *= 3
+    for url in F.LAZY_REQUESTS:
+        traced_case(ctx, F.LAZY_SPEC, url, "lazy", cases)
+    n_specs = 36 if search else 12 if tier == "quick" else 120
     specs = [F.rand_spec(rng) for _ in range(n_specs)]
     for spec in specs:
         for _ in range(10):
             url, kind = F.rand_request(rng, spec)
             traced_case(ctx, spec, url, kind, cases, tid=rng.randint(0, 9))
     run_correspondence(ctx, cases)
+    mark("traced requests + correspondence")
     # (a) histories
     order = list(F.FIXED_REQUESTS)
     history_case(ctx, F.FIXED_SPEC, order, "fixed-all")
     history_case(ctx, F.FIXED_SPEC, order[::-1], "fixed-all")
     for _ in range(6 if tier == "quick" else 60):
         history_case(ctx, F.FIXED_SPEC, [rng.choice(F.FIXED_REQUESTS) for _ in range(rng.randint(2, 12))], "fixed")
+    # lazy sequences (IterData; the served data object is itself a little pipeline: stream, filters, maps, slices):
+    # the whole list in both orders, every request three times in a row on one application, and random histories
+    # of >= 3 requests in which a request comes back after others
+    lazy = list(F.LAZY_REQUESTS)
+    history_case(ctx, F.LAZY_SPEC, lazy + lazy, "lazy-all-twice")
+    history_case(ctx, F.LAZY_SPEC, lazy[::-1], "lazy-all")
+    for url in lazy:
+        history_case(ctx, F.LAZY_SPEC, [url, url, url], "lazy-thrice")
+    for _ in range(8 if tier == "quick" else 80):
+        urls = [rng.choice(lazy) for _ in range(rng.randint(3, 10))]
+        urls += [urls[0], rng.choice(urls)]
+        history_case(ctx, F.LAZY_SPEC, urls, "lazy")
     for spec in specs:
         for _ in range(3 if tier == "quick" else 8):
             urls = [F.rand_request(rng, spec)[0] for _ in range(rng.randint(2, 12))]
@@ -228,8 +268,62 @@ def explore(ctx, tier, search=False):
             if rng.random() < 0.5:
                 urls.append(urls[0])
             history_case(ctx, spec, urls, "random")
+    mark("histories")
+    # (o') module-level state: a container of a pydap module changed while a request was served = a store outside
+    # `Owned t`; the code no longer has the discipline the noninterference theorem assumes.  Recorded as a
+    # disagreement with the model (whose program stores only into objects of the request), then searched for a
+    # wrong response with line-level schedules aimed at the functions that touch the container.
+    if _BREAKS:
+        labels = sorted(set(b["label"] for b in _BREAKS))
+        for label in labels:
+            first = [b for b in _BREAKS if b["label"] == label]
+            if any(d and label in d["function"] for d in ctx.corr_disagreements):
+                continue
+            ctx.corr_disagreements.append({
+                "function": "ownership discipline: module-level state %s written while serving a request" % label,
+                "line": first[0]["url"], "impl": "store into %s (%d requests did)" % (label, len(first)),
+                "model": "every store goes to an object allocated by the request",
+                "meta": {"spec": first[0]["spec"], "urls": sorted(set(b["url"] for b in first))[:8]}})
+        ctx.notes.append("module-level state written while serving: %s" % ", ".join(labels))
+        S.targeted(ctx, rng, list(_BREAKS), search=search, seen=[(sp, u) for sp, u in _RECENT])
+        del _BREAKS[:]
+    ctx.extra["module_level_containers_watched"] = len(M.roots())
+    mark("targeted line-level search")
     # (b) schedules
     S.explore(ctx, tier, rng, specs, search=search)
+    mark("schedules")
+
+
+def confirm_failures(ctx, limit=6):
+    """Every failure was observed in this process (or in a worker forked from it) after many other requests; with
+    module-level state in pydap it may depend on them.  The replay must stand alone: re-run the smallest candidates
+    in a FRESH interpreter and prefer one that fails there; candidates that do not reproduce are pushed back."""
+    import json
+    import os
+    import subprocess
+    import sys
+    import tempfile
+
+    if not ctx.oracle_failures:
+        return
+    confirmed = 0
+    for f in sorted(ctx.oracle_failures, key=lambda d: d["size"])[:limit]:
+        with tempfile.NamedTemporaryFile("w", suffix=".json", delete=False) as tmp:
+            json.dump({"failure": f}, tmp, default=repr)
+        try:
+            p = subprocess.run([sys.executable, os.path.join(common.HARNESS, "run.py"), "C13", "--replay", tmp.name],
+                               stdout=subprocess.PIPE, stderr=subprocess.STDOUT, timeout=300, text=True)
+            reproduced = p.returncode == 1
+        except Exception:
+            reproduced = False
+        finally:
+            os.unlink(tmp.name)
+        if reproduced:
+            confirmed += 1
+            break
+        f["size"] += 10 ** 7
+        f["what"] += " (seen after other requests in the same process; did not fail in a fresh process)"
+    ctx.notes.append("replay candidates re-run in a fresh interpreter: %s" % ("one confirmed" if confirmed else "none confirmed"))
 
 
 def run(ctx):
@@ -239,9 +333,12 @@ def run(ctx):
                 "non-trivial when it is answered 200; a history when it has >= 2 requests; a schedule when it has "
                 ">= 1 preemption; distinct by (dataset, request list, schedule)")
     ctx.assumptions = [
-        "C13: the model's atomic step is one logged store; interleavings below that granularity (bytecode "
-        "atomicity, numpy/webob C code releasing the GIL) are outside the model and only exercised by the "
-        "deterministic scheduler at pydap call granularity",
+        "C13: the model's atomic step is one logged store; interleavings below source-line granularity (bytecode "
+        "atomicity, numpy/webob C code releasing the GIL) are outside the model; the deterministic scheduler "
+        "switches threads at pydap function entries/generator resumptions and between any two source lines of "
+        "pydap frames",
+        "C13: module-level state = mutable containers reachable from loaded pydap.* modules (globals, class "
+        "attributes, function defaults/closures/attributes); re/functools/import caches are not scanned",
         "C13: allocation identity is tracked by the harness through DapType.__init__ and tracking container "
         "subclasses; responses under tracing are compared with untraced ones on every case",
         "C13: malformed requests and the response/ssf-eval stages are covered by the ownership oracle and the "
@@ -249,7 +346,13 @@ def run(ctx):
     ]
     ctx.proof_phase()
     explore(ctx, ctx.tier)
-    return ctx.finish(search=lambda c: explore(c, "thorough", search=True))
+    confirm_failures(ctx)
+    # failing-input search when the proof, the correspondence or the discipline broke without a wrong response yet:
+    # three times the datasets, the larger targeted line-level search, the middle schedule budget (~3-5 min)
+    def search(c):
+        explore(c, c.tier, search=True)
+        confirm_failures(c)
+    return ctx.finish(search=search)
 
 
 def replay(payload):
